@@ -1,6 +1,13 @@
-"""Run a property's rules; where a rule does not reach a verdict of `holds` on the source as written, decide it again
-on the normal form of the program (normalize.py: helpers inlined, literal loops unrolled, ...).  The two programs are
-equivalent, so a rule discharged on either one is discharged; a rule that reports a finding on both reports it."""
+"""Run a property's rules on the source as written AND on the normal form of the program (normalize.py: helpers inlined, literal
+loops unrolled, ...).  The two programs are equivalent.  Per rule:
+
+  * no verdict on the source as written (finding, missing anchor, instance shortfall) but discharged on the normal form
+    -> discharged (the rule did not recognise a shape; the equivalent program shows the clause holds);
+  * discharged on the source as written, but the normal form yields a finding for a construct that the run on the source as
+    written did NOT examine (no instance of that rule names it) -> the finding stands: the rule was vacuous there (typically
+    the code it looks for sits in a helper); a finding for a construct that WAS examined and discharged as written is
+    a disagreement about the same obligation and is dropped (recorded in the evidence);
+  * a finding on both forms is reported (as seen on the source as written)."""
 from __future__ import annotations
 import importlib, os
 from . import frontend, report
@@ -37,22 +44,24 @@ def decide(pid, repo=None, tier='quick', seed=0, only=None):
         ctx2.only = only
         mod.run(ctx2)
         return ctx2
-    if err is None and not bad:
-        return ctx
     prog2 = frontend.Program(repo)
     nz = prog2.enable_normal_form()
     ctx2 = report.Ctx(pid, tier, prog2, seed)
     ctx2.only = only
+    err2 = None
     try:
         mod.run(ctx2)
-    except frontend.AnalysisError:
+    except frontend.AnalysisError as e2:
+        err2 = e2
+    if err2 is not None:
         if err is not None:
             raise err
         return ctx
-    info = {'reason': str(err) if err is not None else 'rules without a verdict on the source as written: ' +
-            ', '.join(r.id for r in bad),
-            'helpers_inlined': {k: v for k, v in sorted(nz.log.items()) if v},
-            'helpers_absorbed': sorted(prog2.absorbed), 'rules_decided_on_normal_form': []}
+    info = {'reason': (str(err) if err is not None else ('rules without a verdict on the source as written: ' + ', '.join(r.id for r in bad)) if bad else
+                       'completion of the run on the source as written'),
+            'helpers_inlined_in_functions': len([1 for v in nz.log.values() if v]),
+            'helpers_absorbed': sorted(prog2.absorbed), 'rules_decided_on_normal_form': [],
+            'findings_seen_only_on_normal_form': [], 'normal_form_findings_dropped_because_examined_and_discharged_as_written': []}
     if err is not None:
         # the source as written hides an anchor; the normal form is the program that is analysed
         for r in ctx2.rules:
@@ -63,11 +72,29 @@ def decide(pid, repo=None, tier='quick', seed=0, only=None):
     by_id = {r.id: r for r in ctx2.rules}
     for i, r in enumerate(ctx.rules):
         r2 = by_id.get(r.id)
-        if r in bad and r2 is not None and not _bad(r2, known):
-            r2.ctx = ctx
-            r2.desc += ' [normal form]'
-            ctx.rules[i] = r2
-            info['rules_decided_on_normal_form'].append(r.id)
-    if info['rules_decided_on_normal_form']:
+        if r2 is None:
+            continue
+        if r in bad:
+            if not _bad(r2, known):
+                r2.ctx = ctx
+                r2.desc += ' [normal form]'
+                ctx.rules[i] = r2
+                info['rules_decided_on_normal_form'].append(r.id)
+            continue
+        # completion: findings that only the normal form can see (constructs this rule did not examine as written)
+        examined = {x['construct'] for x in r.instances}
+        for f in r2.findings:
+            if f['key'] in known or any(g['key'] == f['key'] for g in r.findings):
+                continue
+            if f['construct'] in examined:
+                info['normal_form_findings_dropped_because_examined_and_discharged_as_written'].append(f['key'])
+                continue
+            f = dict(f)
+            f['what'] += '  [seen on the normal form only: as written, the rule examines no instance of this construct]'
+            r.findings.append(f)
+            r.instances.append({'construct': f['construct'], 'fact': 'FAILED (normal form): ' + f['what'], 'where': f['where'], 'ok': False})
+            info['findings_seen_only_on_normal_form'].append(f['key'])
+    if info['rules_decided_on_normal_form'] or info['findings_seen_only_on_normal_form'] or \
+            info['normal_form_findings_dropped_because_examined_and_discharged_as_written']:
         ctx.extra['normal_form'] = info
     return ctx
